@@ -79,7 +79,7 @@ def g1_apportionment(ctx):
                     if K is not None and P is not None and len(K.elems) == len(P.elems) and (K.source == P.source or (blocs_ok and K.source in canon and P.source in canon)):
                         oka, why = True, f"per-bloc blocks of {len(K.elems)} over {K.source} / {P.source}"
                 shapes.add("blocs" if ks == {("keys", "self.bloc_voter_prop")} else "types")
-            ctx.check(okm and okt and okz and oka, f, c, f"{f.short}: counts = Huntington-Hill of number_of_ballots by the proportions, keyed in the proportions' order",
+            ctx.check_shape(okm and okt and okz and oka, f, c, f"{f.short}: counts = Huntington-Hill of number_of_ballots by the proportions, keyed in the proportions' order",
                       why[:160], f"`{astx.u(c)}`: method ok={okm}, total is the number_of_ballots parameter={okt}, dict(zip(keys, counts))={okz}, keys/proportions aligned={oka} ({why[:120]})")
     if n < 7:
         ctx.vanished("apportionment call sites" + ": " + f"only {n} apportionment calls in generate_profile* (floor 7)")
@@ -191,7 +191,7 @@ def g6_short_pl_lengths(ctx):
         and d2.get("number_tied = number_to_sample - len(non_zero_cands)") == short and d2.get("number_tied = None") == set()
     order = [astx.u(s) for s in astx.walk_own(f.node) if isinstance(s, ast.Assign) and astx.u(s.targets[0]) in ("number_tied", "number_to_sample") and astx.u(s.value) != "None"]
     good = good and order == ["number_to_sample = self.ballot_length", "number_tied = number_to_sample - len(non_zero_cands)", "number_to_sample = len(non_zero_cands)"]
-    ctx.check(good, f, f.node, "short PL: sample min(ballot_length, #supported) candidates, the remaining positions are one zero-support tie", str(order),
+    ctx.check_shape(good, f, f.node, "short PL: sample min(ballot_length, #supported) candidates, the remaining positions are one zero-support tie", str(order),
               f"length bookkeeping is {order} under {d1} / {d2}")
 
 
